@@ -128,7 +128,21 @@ static Boolean IsAllowed(LongInt Val) {
     return (CPUAllowed(Val >> 8) && (Val != -1));
 }
 
+/* set by EvalAddress() for the 65CE02: the address holds a symbol defined
+   further down */
+
+static Boolean AddressUsesForwards;
+
 static void ChkZeroMode(tAdrResult* pResult, NormOrder const* pOrder, ShortInt ZeroMode) {
+    /* With a base page other than 0, taking the short form for a forward
+       reference can move the target below the page again, and the two forms then
+       invalidate each other from pass to pass without end.  Stop choosing the
+       short form for forward references in late passes so that assembly always
+       settles: */
+
+    if ((MomCPU == CPU65CE02) && (RegB != 0) && AddressUsesForwards && (PassNo > 8)) {
+        return;
+    }
     if (pOrder && (IsAllowed(pOrder->Codes[ZeroMode]))) {
         pResult->ErgMode = ZeroMode;
         pResult->AdrCnt--;
@@ -188,6 +202,7 @@ static Word EvalAddress(tStrComp const* pArg, IntType Type, Boolean* pOK) {
         /* alwys get a full 16 bit address */
 
         Address = EvalStrIntExpressionWithFlags(pArg, UInt16, pOK, &Flags);
+        AddressUsesForwards = *pOK && mUsesForwards(Flags);
         if (!*pOK) {
             return 0;
         }
